@@ -666,6 +666,29 @@ func (p *pexp) hasMixedNumeric(sc *sqlSchema) bool {
 	return false
 }
 
+// a -0.0 FLOAT constant anywhere in the predicate (equal to +0.0 under Float64.Compare, different as an index key)
+func (p *pexp) hasNegZero() bool {
+	if p == nil {
+		return false
+	}
+	isNZ := func(v c15Val) bool { return !v.null && v.ty == sql.Float64Type && v.f == 1<<63 }
+	switch p.K {
+	case "cmp":
+		return isNZ(p.V)
+	case "in":
+		for _, v := range p.Vs {
+			if isNZ(v) {
+				return true
+			}
+		}
+	case "not":
+		return p.L.hasNegZero()
+	case "and", "or":
+		return p.L.hasNegZero() || p.R.hasNegZero()
+	}
+	return false
+}
+
 func (p *pexp) hasBoolCol() bool {
 	switch p.K {
 	case "boolcol":
